@@ -410,6 +410,8 @@ def run_churn(fx, world, rec, r, sername, nthreads, rounds, plans=None):
     fx.wait_until(lambda: all(hook_count(fx, sn) >= 1 for sn, _, _ in serials), 10.0)
     # the hook runs just before the connection object is closed: give that last step its bounded time too
     fx.wait_until(lambda: all(world.entry(sn)["conn"] is None or sock_closed(world.entry(sn)["conn"]) for sn, _, _ in serials), 10.0)
+    # (close() shuts the socket first and closes the tracked resources after that)
+    fx.wait_until(lambda: all(res.closed >= 1 for sn, _, _ in serials for res in world.entry(sn)["tracked"]), 10.0)
     time.sleep(0.01)
     for t in ths:
         for i in range(len(t.plan)):
